@@ -46,10 +46,10 @@ ASSUMPTIONS = [
     "a (3,2) result with two equal columns counts as the single point (3-d collinear touching)",
 ]
 REQUIRED = {
-    "2d": 0.3, "3d": 0.3, "kind-none": 0.1, "kind-point": 0.1, "kind-segment": 0.05,
+    "2d": 0.3, "3d": 0.3, "kind-none": 0.1, "kind-point": 0.1, "kind-segment": 0.03,
     "parallel-noncollinear": 0.02, "collinear-disjoint": 0.01, "collinear-touch": 0.01,
     "endpoint-touch": 0.03, "interior-cross": 0.03, "3d-skew": 0.02, "near-miss": 0.02,
-    "rational-point": 0.02, "3d-degenerate-projection": 0.03,
+    "rational-point": 0.015, "3d-degenerate-projection": 0.03,
 }
 ENUMERATE_TIERS = ("thorough",)
 _enum = builtins.enumerate  # the contract's `enumerate` below shadows the builtin in this module
@@ -88,8 +88,8 @@ KNOWN = {"C28-segments3d-parallel-projection": _proj_parallel}
 
 
 # ----------------------------------------------------------------------------- strategies
-GENS = ["random", "random", "parallel", "collinear", "touch", "cross", "cross-rational", "near-miss",
-        "shared-endpoint"]
+GENS = ["random", "random", "parallel", "collinear", "touch", "cross", "cross", "cross-rational", "cross-rational",
+        "near-miss", "shared-endpoint"]
 
 
 def _add(p, v, k=1):
@@ -132,6 +132,10 @@ def build(gen, dim, R, n):
             t[1] += 1
         if t[2] == t[3]:
             t[3] -= 1
+        if D.below(3) == 0:
+            # end-to-end: the second segment starts at an end of the first and points away from it
+            t[2] = t[1]
+            t[3] = t[1] + (1 if t[1] > t[0] else -1) * D.int(1, 3)
         a, b, c, d = (_add(o, u, k) for k in t)
     elif gen == "touch":
         # an end point of the second segment lies on the first (T-junction / end-to-end)
@@ -153,7 +157,9 @@ def build(gen, dim, R, n):
             fix = True
         if fix:
             v = _unparallel(u, v, ax)
-        i, j, k, l =D.int(0, 3), D.int(0, 3), D.int(0, 3), D.int(0, 3)
+        i, j, k, l = D.int(0, 3), D.int(0, 3), D.int(0, 3), D.int(0, 3)
+        if D.bool():  # proper crossing in the interior of both
+            i, j, k, l = max(i, 1), max(j, 1), max(k, 1), max(l, 1)
         if i + j == 0:
             j = 1
         if k + l == 0:
